@@ -313,6 +313,35 @@ def spec_ops(spec):
     return ops
 
 
+def own_vectors(a, b, c, al, be, ga):
+    """Box vectors from cell parameters (degrees), own float64 trigonometry (not biotite's box.py)."""
+    import math
+    ca, cb, cg, sg = (math.cos(math.radians(al)), math.cos(math.radians(be)), math.cos(math.radians(ga)),
+                      math.sin(math.radians(ga)))
+    cx = c * cb
+    cy = c * (ca - cb * cg) / sg
+    cz = math.sqrt(max(c * c - cx * cx - cy * cy, 0.0))
+    return [[a, 0.0, 0.0], [b * cg, b * sg, 0.0], [cx, cy, cz]]
+
+
+def own_unitcell(box):
+    """(a, b, c, alpha, beta, gamma) in degrees from three box vectors, own float64 arithmetic."""
+    import math
+    v = [[float(x) for x in row] for row in box]
+    ln = [math.sqrt(sum(x * x for x in r)) for r in v]
+
+    def ang(p, q):
+        d = sum(x * y for x, y in zip(v[p], v[q])) / (ln[p] * ln[q])
+        return math.degrees(math.acos(max(-1.0, min(1.0, d))))
+    return ln + [ang(1, 2), ang(0, 2), ang(0, 1)]
+
+
+def cell_differs(b0, b1):
+    """Cell parameters: lengths relative 1e-5, angles 1e-3 degrees."""
+    u0, u1 = own_unitcell(b0), own_unitcell(b1)
+    return any(abs(x - y) > 1e-5 * abs(x) for x, y in zip(u0[:3], u1[:3])) or any(abs(x - y) > 1e-3 for x, y in zip(u0[3:], u1[3:]))
+
+
 def build_array(spec):
     import numpy as np
     import biotite.structure as struc
@@ -332,16 +361,15 @@ def build_array(spec):
     if spec.get("occupancy") is not None:
         arr.set_annotation("occupancy", np.array(spec["occupancy"], dtype=float))
     for name, vals in (spec.get("extra") or {}).items():
-        arr.set_annotation(name, np.array(vals, dtype=str))
+        is_int = all(isinstance(x, int) and not isinstance(x, bool) for x in vals)
+        arr.set_annotation(name, np.array(vals, dtype=int if is_int else str))
     coord = np.array([[tok_xyz(t) for t in mdl] for mdl in spec["coords"]], dtype=np.float32).reshape(m, n, 3)
     if spec["stack"]:
         arr.coord = coord
     else:
         arr.coord = coord[0]
     if spec.get("box"):
-        from biotite.structure.box import vectors_from_unitcell
-        a, b, c, al, be, ga = spec["box"]
-        box = vectors_from_unitcell(a, b, c, np.deg2rad(al), np.deg2rad(be), np.deg2rad(ga))
+        box = np.array(own_vectors(*spec["box"]), dtype=np.float32)
         arr.box = np.stack([box] * m) if spec["stack"] else box
     if spec.get("bonds") is not None:
         arr.bonds = struc.BondList(n, np.array(spec["bonds"], dtype=np.int64).reshape(-1, 3))
@@ -487,10 +515,32 @@ def gen_spec(rng, flavour="valid"):
             # numbering: +1, same id (next residue gets another insertion code), forward jump, or DOWNWARDS
             # (20 -> 19, 18 -> 4: legal; the reader links consecutive residues by position unless the id grows by > 1)
             rid += 1 if r < 0.6 else (0 if r < 0.72 else (rng.randint(2, 5) if r < 0.86 else -rng.choice([1, 1, 2, 14])))
+    int_bound = rng.random() < 0.2
+    _B = [127, 128, 129, 255, 256, 32767, 32768, 32769, 65535, 65536, 2147483647]
+    if int_bound:
+        # integer columns on the type boundaries, with and without a negative value in the same column:
+        # res_id (per-chain offset keeps gaps/order), plus optionally a water with a negative res_id
+        top = rng.choice(_B)
+        last = atoms[-1][0]
+        shift = top - max(a[1] for a in atoms if a[0] == last)
+        for a in atoms:
+            if a[0] == last:
+                a[1] += shift
+        if rng.random() < 0.6 and "W" not in used_chains:
+            _template(rng, "HOH", templates)
+            atoms.append(["W", -rng.randint(1, 300), "", "HOH", True, "O", "O", 0, 0])
     n = len(atoms)
     ids = rng.sample(range(1, 10 * n + 10), n)
+    if int_bound:
+        top = rng.choice(_B)
+        ids = [top - k for k in range(n)]
+        rng.shuffle(ids)
+        if rng.random() < 0.6:
+            ids[rng.randrange(n)] = -rng.randint(1, 9)
     for i, a in enumerate(atoms):
         a[8] = ids[i]
+        if int_bound and rng.random() < 0.5:
+            a[7] = rng.choice([127, 128, -128, -129, 32767, 32768, -32768, -32769, -3, 1])
     st = res_starts(atoms)
     with_bonds = rng.random() < 0.85
     bonds = None
@@ -557,6 +607,19 @@ def gen_spec(rng, flavour="valid"):
     if rng.random() < 0.5:
         box = [rng.randint(10, 200) + rng.choice([0, 0.5, 0.25]), rng.randint(10, 200), rng.randint(10, 200) + 0.125,
                rng.choice([90, 90, 75, 100.5]), rng.choice([90, 90, 110, 95.25]), rng.choice([90, 120, 60.5])]
+    if box is not None and rng.random() < 0.35:
+        # very anisotropic cell: a short vector slightly tilted (0.01..1 degree off 90) towards a vector up to 1e4 times longer
+        long_len = rng.choice([1000.0, 5000.0, 20000.0, 50000.0]) * rng.uniform(0.5, 1.0)
+        short_len = rng.uniform(1.0, 50.0)
+        mid_len = rng.uniform(20.0, 400.0)
+        delta = rng.choice([0.01, 0.02, 0.05, 0.115, 0.3, 1.0]) * rng.choice([1, -1])
+        role = rng.choice(["c-a", "c-b", "b-a"])
+        if role == "c-a":      # c short, a long: beta
+            box = [long_len, mid_len, short_len, 90.0, 90.0 + delta, rng.choice([90.0, 90.0, 80.0])]
+        elif role == "c-b":    # c short, b long: alpha
+            box = [mid_len, long_len, short_len, 90.0 + delta, 90.0, 90.0]
+        else:                  # b short, a long: gamma
+            box = [long_len, short_len, mid_len, 90.0, rng.choice([90.0, 95.0]), 90.0 + delta]
     spec = {"atoms": atoms, "stack": stack, "coords": coords, "box": box, "bonds": bonds,
             "has_charge": rng.random() < 0.5, "has_atom_id": rng.random() < 0.4,
             "b_factor": [rng.randint(0, 99999) / 100.0 for _ in range(n)] if rng.random() < 0.4 else None,
@@ -570,6 +633,19 @@ def gen_spec(rng, flavour="valid"):
         spec["extra"]["my_field"] = [rng.choice(["a", "b'", "c\"d", "x-1", "Zé", "0"]) for _ in range(n)]
     if rng.random() < 0.1:
         spec["extra"]["second"] = [rng.choice(["u", "v"]) for _ in range(n)]
+    if int_bound:
+        spec["has_charge"] = spec["has_charge"] or rng.random() < 0.7
+        spec["has_atom_id"] = spec["has_atom_id"] or rng.random() < 0.7
+        top = rng.choice(_B[:-1])
+        vals = [rng.choice([top, top - 1, top + 1, 0, 5]) for _ in range(n)]
+        vals[rng.randrange(n)] = top
+        if rng.random() < 0.6:
+            vals[rng.randrange(n)] = -rng.randint(1, 100) if vals.count(top) > 1 or n == 1 else vals[0]
+            if all(x >= 0 for x in vals) and n > 1:
+                k = next(i for i, x in enumerate(vals) if x != top) if any(x != top for x in vals) else None
+                if k is not None:
+                    vals[k] = -rng.randint(1, 100)
+        spec["extra"]["my_int"] = vals
     return spec
 
 
@@ -1301,6 +1377,9 @@ def _compare(spec, arr, back, fmt, want_stack, tag):
         a, b = arr.get_annotation(cat), back.get_annotation(cat)
         if a.dtype.kind == "f":
             same = np.array_equal(a, b) if fmt != "cbcif" else np.allclose(a, b, rtol=2e-6, atol=0)
+        elif cat in (spec.get("extra") or {}):
+            a, b = a.astype(str), b.astype(str)      # extra fields are read back as strings
+            same = np.array_equal(a, b)
         else:
             same = np.array_equal(a, b)
         if not same:
@@ -1318,12 +1397,12 @@ def _compare(spec, arr, back, fmt, want_stack, tag):
     if (arr.box is None) != (back.box is None):
         v.append(("C04/box/presence", f"{fmt}: box {'lost' if back.box is None else 'invented'}"))
     elif arr.box is not None:
-        from biotite.structure.box import unitcell_from_vectors
         b0 = arr.box[0] if arr.box.ndim == 3 else arr.box
         boxes = back.box if back.box.ndim == 3 else back.box[None]
         for b1 in boxes:
-            if not np.allclose(unitcell_from_vectors(b0), unitcell_from_vectors(b1), rtol=1e-4, atol=1e-4):
-                v.append(("C04/box/unit-cell", f"{fmt}: unit cell {unitcell_from_vectors(b0)} -> {unitcell_from_vectors(b1)}"))
+            if cell_differs(b0, b1):
+                v.append(("C04/box/unit-cell", f"{fmt}: unit cell {[round(x, 5) for x in own_unitcell(b0)]} -> "
+                          f"{[round(x, 5) for x in own_unitcell(b1)]}"))
                 break
     if (arr.bonds is None) != (back.bonds is None):
         v.append(("C04/bonds/presence", f"{fmt}: bond list {'lost' if back.bonds is None else 'invented'}"))
